@@ -19,6 +19,7 @@
 package main
 
 import (
+	"bufio"
 	"bytes"
 	"compress/flate"
 	"compress/gzip"
@@ -589,6 +590,12 @@ func runReq(m *msgIn) (out []string) {
 		}
 	}
 	t.b(string(m.body))
+	// what the origin receives: the body Request.Write puts on the wire, read back by net/http
+	if w, ok := wireRequestBody(m); ok {
+		t.add("wb", "1", t.b(string(w)))
+	} else {
+		t.add("wb", "0", "x")
+	}
 
 	defer func() {
 		if r := recover(); r != nil {
@@ -675,6 +682,12 @@ func runRes(m *msgIn) (out []string) {
 	if d, ok := inflateHTTP(m.body); true {
 		t.add("zl", t.b(bs), b01(ok), t.b(string(d)))
 	}
+	// what the client receives: the body Response.Write puts on the wire, read back by net/http
+	if w, ok := wireResponseBody(m, rq); ok {
+		t.add("wb", "1", t.b(string(w)))
+	} else {
+		t.add("wb", "0", "x")
+	}
 
 	defer func() {
 		if r := recover(); r != nil {
@@ -737,6 +750,51 @@ func runRes(m *msgIn) (out []string) {
 	}
 	t.add("j2", b01(same))
 	return t.finish()
+}
+
+// wireRequestBody: serialise a twin with Request.Write and parse it back.
+func wireRequestBody(m *msgIn) (b []byte, ok bool) {
+	defer func() {
+		if recover() != nil {
+			b, ok = nil, false
+		}
+	}()
+	r, err := m.request()
+	if err != nil {
+		return nil, false
+	}
+	var buf bytes.Buffer
+	if r.Write(&buf) != nil {
+		return nil, false
+	}
+	r2, err := http.ReadRequest(bufio.NewReader(&buf))
+	if err != nil {
+		return nil, false
+	}
+	b, err = ioutil.ReadAll(r2.Body)
+	return b, err == nil
+}
+
+func wireResponseBody(m *msgIn, rq *http.Request) (b []byte, ok bool) {
+	defer func() {
+		if recover() != nil {
+			b, ok = nil, false
+		}
+	}()
+	r, err := m.response(rq)
+	if err != nil {
+		return nil, false
+	}
+	var buf bytes.Buffer
+	if r.Write(&buf) != nil {
+		return nil, false
+	}
+	r2, err := http.ReadResponse(bufio.NewReader(&buf), rq)
+	if err != nil {
+		return nil, false
+	}
+	b, err = ioutil.ReadAll(r2.Body)
+	return b, err == nil
 }
 
 func runCase(in []string) []string {
